@@ -52,6 +52,7 @@ struct H
 /* in: the LP vector the getters read (unused by the in-place routines); io: the VectorBase argument */
 extern "C" void w_vec(R* in, R* io, int* rowexp, int* colexp, int n)
 {
+   VIN("n", n); VIN_ARR8("in", in, n); VIN_ARR8("io", io, n); VIN_ARR8("rowexp", rowexp, n); VIN_ARR8("colexp", colexp, n);
    SPxLPBase<R> lp;
    lp._isScaled = true;
    lp.LPColSetBase<R>::scaleExp.data = colexp; lp.LPColSetBase<R>::scaleExp.thesize = n;
